@@ -4,7 +4,7 @@
    dup_identifier_in_transaction); be_holds P be = the backend maps the identifier of every named node of P to that
    node's own document.  Text level (json text, expression strings, float repr) is outside the model. *)
 From Coq Require Import String List ZArith QArith Bool.
-Require Import QV.C10.Model QV.C10.Spec QV.C10.Proofs QV.C10.Witness.
+Require Import QV.C10.Model QV.C10.Spec QV.C10.Proofs QV.C10.Proofs_store QV.C10.Proofs_share QV.C10.Witness.
 Import ListNotations.
 Open Scope string_scope.
 
@@ -18,18 +18,51 @@ Print Assumptions C10_roundtrip_node.
 
 (* a fresh PulseStorage over a backend that holds the documents of P's named nodes loads P back (enough fuel is given:
    termination of the reference chase is part of the statement) *)
-Theorem C10_storage_partial : forall P be i, wf P = true -> consistent P -> be_holds P be -> pt_id P = Some i ->
+Theorem C10_load_roundtrip : forall P be i, wf P = true -> consistent P -> be_holds P be -> pt_id P = Some i ->
   exists p' st', load (length (nodes P)) be fresh_l i = Ok (p', st') /\ erase p' = erase P.
 Proof. exact load_roundtrip. Qed.
-Print Assumptions C10_storage_partial.
+Print Assumptions C10_load_roundtrip.
 
-(* full statement (open: that `store` establishes be_holds is only tested by the correspondence, not proved) *)
+(* one `pulse_storage[id] = P` on a PulseStorage in any state that satisfies the storage invariant temp_ok (objects of
+   the temporary storage are registered under their identifier and have all their documents in the backend), over any
+   backend: afterwards every named node of P occupies the backend entry of its identifier with its own document
+   (be_holds), nothing that was stored before changed (be_extends), entries stay unique, the only new entries are
+   identifiers of nodes of P, and the invariant holds again.  heap_ok = Python identity (`is`) is injective between the
+   temporary storage and the nodes of P. *)
+Theorem C10_store_step : forall (U : pt -> Prop) s P s',
+  (forall x, In x (nodes P) -> U x) -> temp_ok U (s_temp s) (s_be s) -> heap_ok (s_temp s) P -> consistent P ->
+  store s P = Ok s' ->
+  temp_ok U (s_temp s') (s_be s') /\ be_extends (s_be s) (s_be s') /\ be_holds P (s_be s')
+  /\ (be_unique (s_be s) -> be_unique (s_be s'))
+  /\ (forall k, has_key k (s_be s') = true -> has_key k (s_be s) = true \/ exists n, In n (nodes P) /\ pt_id n = Some k)
+  /\ (forall j q, In (j, q) (s_temp s') -> In (j, q) (s_temp s) \/ In q (nodes P)).
+Proof. exact store_step. Qed.
+Print Assumptions C10_store_step.
+
+(* the statement that round 1 left open: store through a fresh PulseStorage, load through another fresh one *)
 Definition C10_storage_statement : Prop := forall P s' i, wf P = true -> consistent P -> pt_id P = Some i ->
   store (empty_s []) P = Ok s' ->
   exists p' st', load (length (nodes P)) (s_be s') fresh_l i = Ok (p', st') /\ erase p' = erase P.
+Theorem C10_storage : C10_storage_statement.
+Proof. exact storage_statement. Qed.
+Print Assumptions C10_storage.
+
+(* full round trip for histories: any pre-existing backend be0, any sequence of stores through two PulseStorage instances
+   sharing the backend (failed stores change nothing), every tree of the history free of identifier clashes; a root
+   whose store succeeded at its turn is, at the END of the history, still completely in the backend and a fresh
+   PulseStorage loads it back equal *)
+Theorem C10_storage_history : forall be0 ops pre w P post i,
+  oid_coherent (live ops) -> (forall w p, In (w, p) ops -> consistent p) ->
+  ops = (pre ++ (w, P) :: post)%list -> wf P = true -> pt_id P = Some i ->
+  (exists h', hstore (fst (hrun (empty_h be0) pre)) w P = Ok h') ->
+  let be := hbe (fst (hrun (empty_h be0) ops)) in
+  be_extends be0 be /\ be_holds P be /\
+  exists p' st', load (length (nodes P)) be fresh_l i = Ok (p', st') /\ erase p' = erase P.
+Proof. exact storage_history. Qed.
+Print Assumptions C10_storage_history.
 
 (* loaded once: after loading identifier i the temporary storage serves i; every later reference gets that object *)
-Theorem C10_sharing_partial : forall P be, wf P = true -> consistent P -> be_holds P be ->
+Theorem C10_loaded_once : forall P be, wf P = true -> consistent P -> be_holds P be ->
   forall f n i, In n (nodes P) -> pt_id n = Some i -> (length (nodes n) <= f)%nat ->
   forall st, cache_ok P st -> forall q st', load f be st i = Ok (q, st') ->
   lookup i (l_cache st') = Some q /\ (forall st'', load f be st' i = Ok (q, st'') -> st'' = st').
@@ -38,11 +71,28 @@ Proof.
   pose proof (load_cached P be Hw Hc Hb f n i Hn Hi Hf st Hst q st' E) as L. split; [exact L|].
   intros st'' E2. destruct f; cbn [load] in E2; rewrite L in E2; congruence.
 Qed.
-Print Assumptions C10_sharing_partial.
+Print Assumptions C10_loaded_once.
 
+(* in-tree identity: object identities are allocated by the loader model (l_next), and two nodes of the loaded tree that
+   carry the same identifier are the same object (equal including the object identity) *)
 Definition C10_sharing_statement : Prop := forall P be i p' st', wf P = true -> consistent P -> be_holds P be ->
   pt_id P = Some i -> load (length (nodes P)) be fresh_l i = Ok (p', st') ->
   forall a b j, In a (nodes p') -> In b (nodes p') -> pt_id a = Some j -> pt_id b = Some j -> a = b.
+Theorem C10_sharing : C10_sharing_statement.
+Proof. exact sharing_statement. Qed.
+Print Assumptions C10_sharing.
+
+(* general form: from any loader state satisfying the cache invariant (linv: cached objects are the stored nodes up to
+   identity + every named node of a cached object is the cache entry of its identifier) a load succeeds, keeps the
+   invariant and all earlier entries, and the returned object shares every identifier with every object in the cache *)
+Theorem C10_sharing_general : forall P be, wf P = true -> consistent P -> be_holds P be ->
+  forall f n i st, In n (nodes P) -> pt_id n = Some i -> (length (nodes n) <= f)%nat -> linv P st ->
+  exists q st', load f be st i = Ok (q, st') /\ erase q = erase n /\ linv P st' /\ lookup i (l_cache st') = Some q /\
+    (forall k x, lookup k (l_cache st) = Some x -> lookup k (l_cache st') = Some x) /\
+    (forall i2 q2 a b j, lookup i2 (l_cache st') = Some q2 -> In a (nodes q) -> In b (nodes q2) ->
+                         pt_id a = Some j -> pt_id b = Some j -> a = b).
+Proof. exact sharing_general. Qed.
+Print Assumptions C10_sharing_general.
 
 (* every stored document stands alone: below the top level no object of a real class carries an identifier, i.e. named
    sub-templates appear as reference nodes only; an unnamed template's data embeds no named template at all *)
